@@ -269,7 +269,8 @@ impl<C: Suite> Interp<C> {
         Value::Array(c.coefficients().iter().map(|x| Self::ej(&x.value())).collect())
     }
     pub fn kp_j(&self, kp: &KeyPackage<C>) -> Value {
-        json!({"id": self.idj(kp.identifier()), "share": Self::sj(&kp.signing_share().to_scalar()),
+        json!({"id": self.idj(kp.identifier()), "id_enc": bytes_json(&kp.identifier().serialize()),
+               "share": Self::sj(&kp.signing_share().to_scalar()),
                "vs": Self::ej(&kp.verifying_share().to_element()),
                "vk": Self::ej(&kp.verifying_key().to_element()), "min": *kp.min_signers()})
     }
@@ -568,8 +569,24 @@ impl<C: Suite> Interp<C> {
             "package" => {
                 let msg = bytes_of(&st["msg"])?;
                 let m = self.slots(st.get("slots"), |s, h| s.comm(h))?;
+                let mut res = json!({"ok": true});
+                if C::IS_SPY {
+                    // encodings of the slots in the library's map order, for byte-structure checks
+                    let enc: Vec<Value> = m
+                        .iter()
+                        .map(|(i, c)| {
+                            let ie = i.serialize();
+                            let mut be = ie.clone();
+                            if C::LE {
+                                be.reverse();
+                            }
+                            json!([bytes_json(&ie), bytes_json(&be), Self::ej(&c.hiding().value()), Self::ej(&c.binding().value())])
+                        })
+                        .collect();
+                    res["enc"] = json!(enc);
+                }
                 self.put(&st["out"], Obj::Pkg(SigningPackage::new(m, &msg)))?;
-                Ok(json!({"ok": true}))
+                Ok(res)
             }
             // -------------------------------------------------------- round 2
             "sign" => {
